@@ -1,0 +1,103 @@
+//go:build verif
+
+package simpleshell
+
+// Contracts for the verification machinery in /verif (govc).  This file is
+// comment-only and is compiled only with -tags verif.
+
+// ---- pinning (C13)
+
+// TLSFingerprintVerifier: malformed fingerprints are refused outright.
+//@ func TLSFingerprintVerifier(fp) (f, err)
+//@   props C13
+//@   ghost dec []byte = nil
+//@   ghost decErr bool = false
+//@   ghost n int = 0
+//@   on call base64.Encoding.DecodeString(enc, s) (b, e): assert(enc == base64.StdEncoding && s == strings.TrimPrefix(fp, "sha256//") && n == 0, "standard_base64_of_fp_without_optional_prefix"); dec = b; decErr = e != nil; n++
+//@   ensures decoded_once: n == 1
+//@   ensures undecodable_refused: imp(decErr, err != nil && f == nil)
+//@   ensures wrong_length_refused: imp(!decErr && len(dec) != 32, err != nil && f == nil)
+//@   ensures wellformed_accepted: imp(!decErr && len(dec) == 32, err == nil && f != nil)
+
+// The verifier itself: nil iff some peer certificate's SPKI hash equals the
+// pinned 32 bytes (full-length constant-time comparison), at any position.
+//@ func TLSFingerprintVerifier#1(cs) (err)
+//@   props C13
+//@   requires pinlen: len(wantFP) == 32
+//@   assumes peers_nonnil: forall(i, 0 <= i && i < len(cs.PeerCertificates), cs.PeerCertificates[i] != nil)
+//@   ghost der []byte = nil
+//@   ghost derErr bool = false
+//@   ghost sum [32]byte
+//@   ghost stage int = 0
+//@   ghost accepted bool = false
+//@   ghost failed bool = false
+//@   ghost nExamined int = 0
+//@   on call x509.MarshalPKIXPublicKey(k) (b, e): assert(stage == 0 && k == cert.PublicKey && !accepted && !failed, "hashes_this_certificates_public_key"); der = b; derErr = e != nil; stage = 1; if e != nil { failed = true }
+//@   on call sha256.Sum256(d) (h): assert(stage == 1 && !derErr && d == der, "sha256_of_the_pkix_encoding"); sum = h; stage = 2
+//@   on call subtle.ConstantTimeCompare(a, b) (r): assert(stage == 2 && a == wantFP && len(b) == 32 && mem(b) == sum, "full_length_comparison_with_the_pin"); stage = 0; nExamined++; if r == 1 { accepted = true }
+//@   loop 1
+//@     invariant progress: stage == 0 && !accepted && !failed && nExamined == i
+//@   ensures accept_iff_some_certificate_matches: iff(err == nil, accepted)
+//@   ensures every_certificate_examined_before_refusal: imp(err != nil && !failed, nExamined == len(cs.PeerCertificates))
+//@   ensures marshal_error_is_refusal: imp(failed, err != nil)
+
+// Go: per-call client; the process-wide defaults are left alone.
+//@ func Go(ctx, conf, shell) (err)
+//@   props C13
+//@   assumes default_client_exists: http.DefaultClient != nil
+//@   assumes default_transport_is_a_Transport: implements(http.DefaultTransport, "*net/http.Transport")
+//@   ghost vfpv ref = nil
+//@   ghost vfpErr bool = false
+//@   ghost nVfp int = 0
+//@   ghost tr *http.Transport = nil
+//@   ghost nPost int = 0
+//@   on call TLSFingerprintVerifier(f) (v, e): assert(f == conf.Fingerprint && conf.Fingerprint != "", "verifier_built_from_this_calls_fingerprint"); vfpv = v; vfpErr = e != nil; nVfp++
+//@   on assign transport(v): tr = v
+//@   on enter http.Client.Post(c, u, ct, body): assert(u == conf.C2 && imp(conf.Fingerprint != "", nVfp == 1 && !vfpErr && tr != nil && c.Transport == tr && tr.TLSClientConfig != nil && tr.TLSClientConfig.VerifyConnection == vfpv && tr.TLSClientConfig.InsecureSkipVerify) && imp(conf.Fingerprint == "", c == http.DefaultClient && nVfp == 0), "request_made_with_this_calls_pinning_client_or_the_untouched_default"); nPost++
+//@   ensures bad_fingerprint_refused_before_any_request: imp(vfpErr, err != nil && nPost == 0)
+//@   ensures process_defaults_untouched: onlyFreshWritten()
+
+//@ func GoSimple(ctx, c2, fingerprint, args) (err)
+//@   props C13
+//@   ghost n int = 0
+//@   on enter Go(c, conf, sh): assert(conf.C2 == c2 && conf.Fingerprint == fingerprint, "configuration_passed_on"); n++
+//@   ensures at_most_once: n <= 1
+
+// ---- wrapped command (C14)
+//@ func NewCmdShell(cmd) (c, err)
+//@   props C14
+//@   ensures usable: imp(err == nil, c != nil)
+//@   ensures pipes: imp(err == nil, c.cmd == cmd && c.sout != nil && c.serr != nil && c.sout != c.serr && c.outr != nil && c.outw != nil)
+
+//@ func CmdShell.SetInput(c, in)
+//@   props C14
+//@   nilable in
+//@   requires hascmd: c.cmd != nil
+//@   ensures stdin_is_the_given_reader: c.cmd.Stdin == in
+
+//@ func CmdShell.Output(c) (r)
+//@   props C14
+//@   ensures the_pipe_reader: r == c.outr
+
+// Go: os/exec's protocol - Wait (hence Run) must not be called before all
+// reads from the pipes have completed - and the output stream ends only after
+// both copies are done; the command's error is what Go reports.
+//@ func CmdShell.Go(c, ctx) (err)
+//@   props C14
+//@   requires wired: c.cmd != nil && c.outw != nil && c.sout != nil && c.serr != nil && c.sout != c.serr
+//@   ghost started bool = false
+//@   ghost startFailed bool = false
+//@   ghost drainedOut bool = false
+//@   ghost drainedErr bool = false
+//@   ghost waited bool = false
+//@   ghost waitErr error = nil
+//@   ghost closed bool = false
+//@   on call exec.Cmd.Start(cmd) (e): assert(cmd == c.cmd && !started && !startFailed, "started_once"); started = e == nil; startFailed = e != nil
+//@   on call io.Copy(dst, src) (n, e): assert(dst == c.outw && started && !closed && (src == c.sout || src == c.serr), "relays_a_command_pipe_into_the_output_stream"); if src == c.sout { drainedOut = true } else { drainedErr = true }
+//@   on enter exec.Cmd.Run(cmd): assert(false, "typestate_Run_waits_while_the_pipes_may_still_be_read")
+//@   on enter exec.Cmd.Wait(cmd): assert(cmd == c.cmd && started && drainedOut && drainedErr && !waited, "typestate_Wait_only_after_both_pipe_copies_finished")
+//@   on call exec.Cmd.Wait(cmd) (e): waited = true; waitErr = e
+//@   on enter io.PipeWriter.CloseWithError(w, e): assert(w == c.outw && !closed && (startFailed || (drainedOut && drainedErr)), "output_stream_ends_only_after_everything_was_relayed"); closed = true
+//@   ensures ran_to_completion: imp(started, waited && closed && drainedOut && drainedErr && err == waitErr)
+//@   ensures start_failure_reported: imp(startFailed, err != nil && closed)
+//@   ensures started_or_failed: started || startFailed
